@@ -4,7 +4,8 @@ C03 - WAMP messages survive every serializer unchanged.
 For each of the 25 message classes ref/wamp_grammar.generate_valid() lists the
 valid wire-level messages: all consistent subsets of optional fields (quick:
 size <= 3 plus the maximal sets; thorough: all subsets, three rotations of the
-boundary-value lists), every optional field alone with each boundary value,
+boundary-value lists, all value combinations of every pair of fields), every
+optional field alone with each boundary value,
 every positional field with each boundary value, all payload forms (args x
 kwargs grid with binary / nested / non-BMP / 2^53 values, payload-transparency
 triples).  Every such message is built as a real object (Message.parse and the
@@ -211,6 +212,9 @@ class _Run:
     def _one(self, cls, label, w, configs):
         G = self.G
         K = _klass(cls)
+        if G.validate(w) != "accept":      # generator and validator of the reference agree
+            raise RuntimeError("reference grammar inconsistent for %s %s: %r" % (
+                cls, label, G.explain(w)))
         cw = G.canonical(w)
         try:
             obj = K.parse(_copy(w))
@@ -253,7 +257,7 @@ class _Run:
                                                           G._short(cw)), w)
         except Exception as e:
             cobj = None
-            self.bad("ctor-exception", cls, _item(label), None,
+            self.bad("ctor-exception", cls, type(e).__name__, None,
                      "%s %s: constructor with parsed attributes raised %s: %s" % (
                          cls, label, type(e).__name__, e), w)
 
@@ -267,7 +271,7 @@ class _Run:
             try:
                 data, is_bin = ser.serialize(obj)
             except Exception as e:
-                self.bad("serialize-exception", cls, _item(label), cfg,
+                self.bad("serialize-exception", cls, type(e).__name__, cfg,
                          "%s %s: serialize raised %s: %s" % (cls, label, type(e).__name__, e), w)
                 continue
             datas[cfg] = data
@@ -288,7 +292,7 @@ class _Run:
             try:
                 msgs = ser.unserialize(data, is_bin)
             except Exception as e:
-                self.bad("unserialize-exception", cls, _item(label), cfg,
+                self.bad("unserialize-exception", cls, type(e).__name__, cfg,
                          "%s %s: unserialize(%r) raised %s: %s" % (
                              cls, label, data[:80], type(e).__name__, e), w)
                 continue
@@ -409,12 +413,12 @@ class _Run:
             try:
                 msgs = ser.unserialize(blob, not cfg.startswith("json"))
             except Exception as e:
-                self.bad("batch-exception", items[0][0], type(e).__name__, cfg,
+                self.bad("batch-exception", "batch", type(e).__name__, cfg,
                          "batch of %d (%s) raised %s: %s" % (n, names, type(e).__name__, e),
                          items[0][1], [w for _, w in items])
                 continue
             if len(msgs) != n:
-                self.bad("batch-count", items[0][0], "%d->%d" % (n, len(msgs)), cfg,
+                self.bad("batch-count", "batch", "%d->%d" % (n, len(msgs)), cfg,
                          "batch of %d (%s) came back as %d messages" % (n, names, len(msgs)),
                          items[0][1], [w for _, w in items])
                 continue
@@ -424,7 +428,7 @@ class _Run:
                 if ok:
                     d = G.first_diff(G.canonical(G.plain(o2.marshal())), G.canonical(w))
                 if not ok or d:
-                    self.bad("batch-order-or-content", cls, "n=%d" % n, cfg,
+                    self.bad("batch-order-or-content", "batch", "n=%d" % n, cfg,
                              "batch of %d (%s): element %d came back as %s (diff %s)" % (
                                  n, names, i, type(o2).__name__, d), w, [x for _, x in items])
             # unbatched serializer must not silently accept a batch of 2+ as one message
@@ -478,8 +482,7 @@ def job(a):
             pool.append((cls, w))
         pool = pool[rot:] + pool[:rot]
         for cls, w in pool:
-            if rot == 0:
-                run.one(cls, "base", w)
+            run.one(cls, "base", w, CONFIGS if rot == 0 else CONFIGS[rot % 8:rot % 8 + 1])
         for n in BATCH_SIZES:
             for i in range(len(pool)):
                 run.batch([pool[(i + j * (1 + rot % 3)) % len(pool)] for j in range(n)])
@@ -508,7 +511,8 @@ MANIFEST = {
     "text": "Exhaustive enumeration of a grammar-derived finite space: for each of the 25 WAMP "
             "message classes every consistent subset of optional fields (quick: subsets of size "
             "<=3 plus the maximal sets; thorough: all subsets, e.g. 16 384 for PUBLISH, with "
-            "three rotations of the boundary-value lists), every field alone with each boundary "
+            "three rotations of the boundary-value lists, and every pair of fields with every "
+            "combination of their boundary values), every field alone with each boundary "
             "value (ids 0/1/2^53, URI shapes, forward_for chains of length 0-3, payload-"
             "transparency triples, an args x kwargs grid with binary, nested, non-BMP and 2^53 "
             "values), built as real objects by Message.parse and by the class constructor, "
